@@ -6,7 +6,7 @@ from __future__ import annotations
 import numpy as np
 
 from .. import gen, specs
-from ..common import f2hex, run_driver, parse_kv, vec_f
+from ..common import f2hex, hex2f, run_driver, parse_kv, vec_f
 from ..impl import make, Recorder, step_table, quiet, exc_enum, MODES
 from . import e2e
 
@@ -70,6 +70,11 @@ def run(ctx):
             X = specs.elem_data(r, cls, n, d, floats=floats and cls != "ART1")
             inv = [1 if specs.is_inverted(cls) else 0]
             rho = [spec["rho"]]
+        if cls not in ("ART1",) and r.random() < 0.15:
+            # single-precision input is valid data; the search (activations, match values, tracked thresholds) is still
+            # the one the rule prescribes
+            X = X.astype(np.float32)
+            cov.hit("float32-input")
         vt = gen.veto_table(r, n, n + 1)
         if cls == "FusionART" and len(chans) >= 2 and (i >= N or (i // len(classes)) % 2 == 0):
             # a crisp "flag" channel with vigilance 0: match values are exactly 0 and still pass `0 >= 0`, so a
@@ -284,8 +289,11 @@ def run(ctx):
         if cls != "FusionART":
             imp_th = [[f2hex(rho_)] for (_, _, rho_) in st.Mseq]
             if imp_th != mod_th:
-                ctx.issue("diff", f"search:{cls}:threshold", f"case {i} step {si}: thresholds in force differ "
-                          f"impl {imp_th} model {mod_th}", rep)
+                # the thresholds are the estimator's own (seen by its vigilance test); the rule fixes them as a function of
+                # the recorded match values: configured value first, then match+eps / match-eps / match after each veto
+                ctx.issue("violation", f"{cls}:tracked-threshold-differs-from-rule",
+                          f"case {i} step {si}: thresholds in force along the search {[hex2f(t[0]) for t in imp_th]} differ from "
+                          f"the ones the mode prescribes from the recorded match values {[hex2f(t[0]) for t in mod_th]} (mode {mode}, eps {eps}, input dtype {np.asarray(X).dtype})", rep)
                 continue
         if has_reset and mode != "MT~":
             imp_c = [c for (c, _, _) in st.resets]
